@@ -141,6 +141,8 @@ def case_panel(rng, tier):
     c = Case({'obj': 'panel', 'panel': d})
     c.tag('obj:panel', 'model:' + model)
     p = gen.build_panel(d)
+    for k_ in gen.leftovers(rng, p, loads=False):
+        c.tag('left:' + k_)
     size = 3 * d['m'] * d['n']
     t = float(sum(d['lam']['plyts']))
     per_point = rng.random() < 0.2
